@@ -94,6 +94,16 @@ def check_bytes(b: bytes) -> tuple[list[tuple[str, str]], str]:
             v = tuple(v)
         if got != v:
             out.append((f"C02/{base}/field/{k}", f"{b.hex()[:60]}: {k} = {got!r}, ISO position holds {v!r}"))
+    if not out and sum(b) % 3 == 1 and b[0] != 0x7F:
+        # the class the bytes were decoded into, used directly (as the discovery scanners do), takes only its own service's replies:
+        # the same bytes under another first byte are rejected - or at least not rewritten into this service's reply
+        other = bytes([(b[0] + 1) & 0xFF if (b[0] + 1) & 0xFF != 0x7F else 0x41]) + b[1:]
+        try:
+            r2 = type(r).from_pdu(other)
+            if r2.pdu != other:
+                out.append((f"C02/{base}/static-decoding-rewrites-foreign-reply", f"{cname}.from_pdu({other.hex()[:60]}) -> object that re-encodes to {r2.pdu.hex()[:60]}"))
+        except Exception:  # noqa: BLE001  clean rejection
+            pass
     if not out and sum(b) % 3 == 0:
         # what a decoded response exposes depends on the received bytes only - not on what the holder of an earlier decoding of
         # the same bytes has done to that object meanwhile
